@@ -15,6 +15,7 @@ Values
 import ast
 import itertools
 import os
+import z3
 from fractions import Fraction
 
 from z3 import (And, ArraySort, BoolSort, BoolVal, Const, ExprRef, Function, If, Implies, Int, IntSort, IntVal, Not, Or,
@@ -1856,6 +1857,24 @@ class Exec:
         # boolean mask assignment (mask has the shape of base)
         if len(items) == 1 and items[0][0] == "idx" and ((isinstance(items[0][1], T) and items[0][1].kind == "bool") or boollike(items[0][1])):
             m = items[0][1]
+            if isinstance(v, T) and v.ndim == 1 and isinstance(m, T) and m.ndim == 1 and base.ndim == 1 and not same_size(v.axes[0].size, base.axes[0].size):
+                # base[mask] = compressed values: position i of the mask receives the rho(i)-th value (mask-selection contract)
+                self.prims["__maskselect__"](self, path, base, m)
+                _, mlen, sigma, rho, _, ax = self.msel_memo[id(m)]
+                if not same_size(v.axes[0].size, mlen):
+                    self.oblige("boolean-mask assignment: as many values as selected positions", path, toI(v.axes[0].size) == mlen, "precondition")
+                def put(i, v=v, m=m, base=base, rho=rho, sigma=sigma):
+                    ii = toI(i)
+                    val = v.elem(rho(ii))
+                    # under mask[i] the contract gives sigma(rho(i)) == i: rewrite it in the selected value
+                    pair = (sigma(rho(ii)), ii)
+
+                    def sub(x):
+                        if isinstance(x, FV):
+                            return FV(sub(x.v), sub(x.nan), sub(x.fin) if x.fin is not None else None)
+                        return z3.substitute(x, pair) if z3.is_expr(x) else x
+                    return ite(toB(m.elem(i)), sub(val), base.elem(i))
+                return T(base.axes, put, kind=base.kind, prov="fresh")
             res = lift(lambda mm, vv, bb: ite(toB(mm) if not isinstance(mm, bool) else mm, vv, bb), m, v, base, kind=base.kind)
             if isinstance(res, T):
                 res.mask = None
